@@ -29,12 +29,24 @@ RULE = ("cases: one-field recipes calling random_number / random_choice / date_b
         "draws injected (ends: k=0 and k=n-1 / random()=0 and 1023/1024; all: every k of a small range; raw) "
         "and compared value-for-value with the model, or free (200 rows of real randomness) checked against the "
         "model's 'possible value' predicate; weighted choices also with weights that are formulas of the row number "
-        "(${{ }}, ${% %}, << >>; list and dict form; several rows, the zero-weight option moving between rows), compared row by row.  non-trivial: a run that produced at least one value from a range "
+        "(${{ }}, ${% %}, << >>; list and dict form; several rows, the zero-weight option moving between rows), compared row by row; "
+        "random_choice BLOCKS rendered many times (rows of a count, iterations up to a target number, children of several parents, "
+        "nested in `if`, two blocks in one object) whose probabilities MIX literals (60, 60%, ' 12.5 ', '+5%', '012.50', '5%%') and formulas of a "
+        "row key (id, child_index, id % m, a sibling field / this.field, a Counters.NumberCounter field, a variable, a field of the parent) and whose "
+        "picks are labels or formulas: the key of every row is read back from the output, the weights the user wrote for THAT row are looked up "
+        "by it (oracle: never an option of weight 0 in that row) and the block as written + key + draw + value go to the model (CBlocks); "
+        "random_number / date_between / datetime_between whose ARGUMENTS are literals or formulas of the row key (mixed; min/max/step, start/end "
+        "as quoted ISO texts, relative, today/now), each row checked against the bounds written for THAT row (oracle) and value-for-value (model); "
+        "weights and date / datetime bounds reach the model as the TEXT written into the recipe (parse_weight_str, spec_of_text: relative, ISO date, "
+        "ISO datetime with fraction / Z / offset; for one bound in four Python's datetime computes the fields instead), printed results are read by "
+        "the model too (value_of_text).  non-trivial: a run that produced at least one value from a range "
         "with >= 2 lattice points / >= 2 options / bounds that differ, or an error case of the property "
         "(empty range, all-zero weights); distinct by case hash")
 TRUSTED = ["harness/oracle_random.py: random.Random._randbelow patched to inject the integer draw",
            "harness/c11.py: random.Random.random patched to return num/1024 (Faker's uniform and random.choices)",
-           "harness/c11.py: bounds rendered to YAML / parsed back from JSON output with Python's datetime (day numbers, microseconds)",
+           "harness/c11.py: for the property oracle (and for one bound / printed value in four on the model side) bounds and printed results are "
+           "converted with Python's datetime (day numbers, microseconds); otherwise the model reads the texts itself",
+           "harness/c11.py block cases: the row key is read from a sibling field `k` of the same row (evaluated by the implementation)",
            "process time zone forced to UTC (date.today(), Faker's local-zone conversions)",
            "harness/c11.py frozen_clock: for datetime cases with now / relative bounds template_funcs' datetime.now() is frozen at one "
            "reading, which is passed to the model as the clock (both per-bound readings equal); if it cannot be frozen the model "
@@ -43,6 +55,9 @@ ASSUMPTIONS = ["CPython random.randrange / random.choice / random.choices (bisec
                "Faker date_between / date_time_between as transcribed (uniform(a,b) = a+(b-a)*random(), year = 365.24 d, month = 30.42 d); "
                "the theorems use exact rational arithmetic where Faker uses floats (the correspondence check injects only dyadic draws, for which both agree)",
                "_randbelow(n) returns an integer in [0,n); random() returns a value in [0,1)",
+               "Python float(text), Faker's relative-date regex (fullmatch) and the ISO 8601 subset shared by YAML timestamps, dateutil and isoformat, "
+               "as transcribed (parse_decimal, parse_rel, parse_iso); texts outside these grammars are Unsupported in the model and not generated",
+               "formula evaluation (Jinja) itself is not modelled: a formula is its value table over the row key",
                "Python int arithmetic = Z arithmetic; local time zone = UTC"]
 EXHAUSTIVE = {"quick": False, "thorough": False}
 
@@ -64,8 +79,8 @@ def spec_day(sp):
     return date(sp["y"], sp["mo"], sp["d"]).toordinal() - EPOCH_ORD
 
 
-def rel_text(parts):
-    return "".join(f"{'+' if v >= 0 else '-'}{abs(v)}{u}" for u, v in parts)
+def rel_text(parts, zpad=0):
+    return "".join(f"{'+' if v >= 0 else '-'}{abs(v):0{zpad}d}{u}" for u, v in parts)
 
 
 def rel_seconds(parts):
@@ -90,7 +105,7 @@ def spec_yaml(sp):
     if t in ("now", "today"):
         return t
     if t == "rel":
-        return rel_text(sp["parts"])
+        return rel_text(sp["parts"], sp.get("zpad", 0))
     if t == "bad":
         return json.dumps(sp["text"])
     dpart = f"{sp['y']:04d}-{sp['mo']:02d}-{sp['d']:02d}"
@@ -100,14 +115,28 @@ def spec_yaml(sp):
         sep = " " if sp["style"] in ("yaml_sp", "str_sp") else "T"
         txt = f"{dpart}{sep}{sp['H']:02d}:{sp['M']:02d}:{sp['S']:02d}"
         if sp["us"]:
-            txt += f".{sp['us']:06d}"
+            frac = f"{sp['us']:06d}"
+            txt += "." + (frac.rstrip("0") if sp.get("shortfrac") else frac)
         if sp["off"] is not None:
-            txt += off_text(sp["off"])
+            txt += "Z" if (sp["off"] == 0 and sp.get("zulu")) else off_text(sp["off"])
     return json.dumps(txt) if sp["style"].startswith("str") else txt
 
 
+def spec_text(sp):
+    """the bound as the characters the user wrote (no YAML quoting)"""
+    y = spec_yaml(sp)
+    return json.loads(y) if y.startswith('"') else y
+
+
 def spec_coq(sp):
+    """The bound for the model.  Normally the text as the user wrote it (the model parses it: spec_of_text);
+    for one text in four (decided by the text) the fields computed with Python's datetime instead, so
+    that the two computations of day numbers are compared with each other through the implementation."""
     t = sp["t"]
+    if t != "bad":
+        txt = spec_text(sp)
+        if sum(map(ord, txt)) % 4 != 0 and all(32 <= ord(ch) < 127 and ch != '"' for ch in txt):
+            return f"(spec_of_text {C.cstr(txt)})"
     if t == "now":
         return "SNow"
     if t == "today":
@@ -129,6 +158,8 @@ def fmt_weight(q, style):
     """q = weight in quarters; style pct / num / str"""
     frac = {0: "", 1: ".25", 2: ".5", 3: ".75"}[abs(q) % 4]
     val = ("-" if q < 0 else "") + str(abs(q) // 4) + frac
+    if style in ("sp", "plus", "zeros", "pp"):
+        return "'" + tok(q, style)[1] + "'"
     if style == "pct":
         return f"{val}%"
     if style == "str":
@@ -136,6 +167,18 @@ def fmt_weight(q, style):
     if style == "flt" and q % 4 == 0:
         return val + ".0"
     return val
+
+
+def old_tok(q, style):
+    """fmt_weight's text as a token [q, text, type]"""
+    if style in ("sp", "plus", "zeros", "pp"):
+        return tok(q, style)
+    text = fmt_weight(q, style)
+    if style == "str":
+        return [q, json.loads(text), "str"]
+    if style == "pct":
+        return [q, text, "str"]
+    return [q, text, "flt" if "." in text else "int"]
 
 
 def weight_literal(q, pct=False, quoted=False):
@@ -177,6 +220,13 @@ def body_lines(case):
             if not items:
                 return ["random_choice: []"]
             return ["random_choice:"] + [f"  - L{lab}" for lab, _, _ in items]
+        if "raw" in case:                     # probabilities given as literal texts (malformed ones included)
+            if form == "dict":
+                return ["random_choice:"] + [f"  L{lab}: {json.dumps(t)}" for (lab, _, _), t in zip(items, case["raw"])]
+            lines = ["random_choice:"]
+            for (lab, _, _), t in zip(items, case["raw"]):
+                lines += ["  - choice:", f"      probability: {json.dumps(t)}", f"      pick: L{lab}"]
+            return lines
         if form == "choices":
             lines = ["random_choice:"]
             for j, (lab, q, st) in enumerate(items):
@@ -330,6 +380,73 @@ def block_row(b, k):
     return labs, [t[0] for t in row]
 
 
+# ------------------------------------------------------------------------------------------------
+# arguments of random_number / date_between / datetime_between that change from row to row: every
+# argument is a literal or a formula of the row key (same scheme as the blocks: the key is read back
+# from the sibling field `k`, the arguments the user wrote for that row are looked up by it)
+RA_NAMES = {"number": ["min", "max", "step"], "date": ["start_date", "end_date"], "datetime": ["start_date", "end_date"]}
+RA_FN = {"number": "random_number", "date": "date_between", "datetime": "datetime_between"}
+
+
+def rowargs_recipe(case):
+    ra = case["rowargs"]
+    kind = case["kind"]
+    expr = {"id": "id", "child_index": "child_index", "field": "k"}[ra["driver"]]
+    if kind == "number":
+        lit, in_expr, in_block = str, str, str
+    else:
+        lit, in_expr, in_block = spec_yaml, (lambda sp: "'" + spec_text(sp) + "'"), spec_text
+    lines = [f"{RA_FN[kind]}:"]
+    for j, name in enumerate(RA_NAMES[kind]):
+        if ra["tab"][0][1][j] is None:
+            continue                                  # step left out
+        if name in ra["lit"]:
+            lines.append(f"  {name}: {lit(ra['tab'][0][1][j])}")
+        else:
+            lines.append(f"  {name}: " + key_formula(expr, ra["syntax"][j], [(key, row[j]) for key, row in ra["tab"]], in_expr, in_block))
+    head = "" if ra.get("legacy") else "- snowfakery_version: 3\n"
+    kl = 'k: "${{ id }}"' if ra["driver"] == "field" else 'k: "${{ ' + expr + ' }}"'
+    return (head + f"- object: A\n  count: {ra['count']}\n  fields:\n    {kl}\n    d:\n"
+            + "".join(f"      {l}\n" for l in lines))
+
+
+def row_case(case, k):
+    """the one-row case with the arguments the user wrote for the row whose key is k"""
+    ra = case["rowargs"]
+    row = next((r for key, r in ra["tab"] if key == k), ra["tab"][-1][1])
+    mode = case["draws"]["mode"]
+    base = {"kind": case["kind"], "draws": {"mode": "free" if mode == "free" else "raw", "rows": 1, "raw": [0]}}
+    if case["kind"] == "number":
+        return dict(base, min=row[0], max=row[1], step=row[2], style="block")
+    return dict(base, start=row[0], end=row[1], tz=None)
+
+
+def rowargs_all_valid(case, obs):
+    """every row of the table has arguments for which the property demands a value (decided from the table, not assumed)"""
+    for key, _ in case["rowargs"]["tab"]:
+        rc = row_case(case, key)
+        if case["kind"] == "number":
+            if not (rc["min"] <= rc["max"] and (rc["step"] is None or rc["step"] >= 1)):
+                return False
+        elif case["kind"] == "date":
+            ds, de = date_bound(rc["start"], obs), date_bound(rc["end"], obs)
+            if ds is None or de is None or not obs.get("clock_stable", True):
+                return False             # (a reversed pair is valid: it returns nothing)
+        else:
+            bs = dt_bounds(rc, obs)
+            if bs[0] is None or bs[1] is None or not obs.get("clock_stable", True) or not bs[0][1] <= bs[1][0]:
+                return False
+    return True
+
+
+def all_specs(case):
+    if case["kind"] not in ("date", "datetime"):
+        return []
+    if "rowargs" in case:
+        return [sp for _, row in case["rowargs"]["tab"] for sp in row]
+    return [case["start"], case["end"]]
+
+
 def inline_expr(case):
     """`${{ ... }}` form for random_number only"""
     args = f"min={case['min']}, max={case['max']}"
@@ -341,6 +458,8 @@ def inline_expr(case):
 def recipe(case):
     if "blk" in case:
         return block_recipe(case)
+    if "rowargs" in case:
+        return rowargs_recipe(case)
     rows = case["draws"]["rows"]
     version = "" if case.get("syntax") == "legacy" else "- snowfakery_version: 3\n"   # << >> needs the legacy mode
     head = f"{version}- object: A\n  count: {rows}\n  fields:\n"
@@ -405,7 +524,7 @@ def canon_value(kind, v):
         return ["z", int(v[1:])]
     if kind == "date" and isinstance(v, str):
         try:
-            return ["z", date.fromisoformat(v).toordinal() - EPOCH_ORD]
+            return ["z", date.fromisoformat(v).toordinal() - EPOCH_ORD, v]
         except ValueError:
             pass
     if kind == "datetime" and isinstance(v, str):
@@ -415,9 +534,9 @@ def canon_value(kind, v):
             naive = dt.replace(tzinfo=None) - datetime(1970, 1, 1)
             wall = (naive.days * 86400 + naive.seconds) * US + naive.microseconds
             if off is None:
-                return ["dt", wall, None]
+                return ["dt", wall, None, v]
             offs = off.days * 86400 + off.seconds
-            return ["dt", wall - offs * US, offs]
+            return ["dt", wall - offs * US, offs, v]
         except ValueError:
             pass
     return ["other", repr(v)[:80]]
@@ -450,7 +569,7 @@ def run_impl(case):
     import snowfakery.template_funcs as tf
     dr = case["draws"]
     mode, raw = dr["mode"], dr.get("raw", [])
-    uses_now = case["kind"] == "datetime" and any(case[b].get("t") in ("now", "rel") for b in ("start", "end"))
+    uses_now = case["kind"] == "datetime" and any(sp.get("t") in ("now", "rel") for sp in all_specs(case))
     for fn in (getattr(tf, "parse_datetimespec", None), getattr(tf, "parse_date", None)):
         if hasattr(fn, "cache_clear"):
             fn.cache_clear()          # "now"/"today" are cached per process by lru_cache
@@ -501,6 +620,9 @@ def run_impl(case):
               obs["rows"] = [[canon_key(r.get("k"))] + [canon_value("choice", r.get(f)) for f in names]
                              for r in rows if r.get("_table") == "A"]
               obs["ok"] = [v for r in obs["rows"] for v in r[1:]]
+          elif "rowargs" in case:
+              obs["rows"] = [[canon_key(r.get("k")), canon_value(case["kind"], r.get("d"))] for r in rows if r.get("_table") == "A"]
+              obs["ok"] = [r[1] for r in obs["rows"]]
           else:
               obs["ok"] = [canon_value(case["kind"], r.get("d")) for r in rows if r.get("_table") == "A"]
     except BaseException as e:
@@ -540,9 +662,12 @@ def fn_coq(case, obs):
         form, items = case["form"], case["items"]
         if form == "list":
             return "(FChoice (RCList " + C.clist(C.cz(lab) for lab, _, _ in items) + "))"
-        if form == "choices":
-            return "(FChoice (RCChoices " + C.clist(C.cpair(C.copt(q, C.cz), C.cz(lab)) for lab, q, _ in items) + "))"
-        return "(FChoice (RCDict " + C.clist(C.cpair(C.cz(lab), C.cz(q)) for lab, q, _ in items) + "))"
+        # the probabilities as the text written into the recipe; the model parses them (parse_weight_str)
+        if "raw" in case:
+            return ("(FBlock " + C.clist(C.cpair(f"(Some (WLit (WStr {C.cstr(t)})))", f"(PLab {C.cz(lab)})")
+                                         for (lab, _, _), t in zip(items, case["raw"])) + " 0)")
+        return ("(FBlock " + C.clist(C.cpair("None" if q is None else f"(Some (WLit {tok_coq(old_tok(q, st))}))", f"(PLab {C.cz(lab)})")
+                                     for lab, q, st in items) + " 0)")
     now = obs.get("now_us")
     clock = f"(mkClock {C.cz(now if now is not None else 0)} {C.cz(obs['today'])})"
     if k == "date":
@@ -552,7 +677,12 @@ def fn_coq(case, obs):
     return f"(FDateTime {clock} {clock} {spec_coq(case['start'])} {spec_coq(case['end'])} {C.copt(tzs, C.cz)})"
 
 
+ISO_OUT = re.compile(r"\d{4}-\d\d-\d\d(T\d\d:\d\d:\d\d(\.\d{1,6})?([+-]\d\d:\d\d)?)?")
+
+
 def value_coq(v):
+    if v[0] in ("z", "dt") and isinstance(v[-1], str) and ISO_OUT.fullmatch(v[-1]) and sum(map(ord, v[-1])) % 4 != 0:
+        return f"(value_of_text {C.cstr(v[-1])})"       # the model reads the printed date / datetime itself
     if v[0] == "z":
         return f"(VZ {C.cz(v[1])})"
     if v[0] == "null":
@@ -563,14 +693,28 @@ def value_coq(v):
 
 
 def _uses_clock(case):
-    return case["kind"] in ("date", "datetime") and any(case[b]["t"] in ("now", "today", "rel") for b in ("start", "end"))
+    return case["kind"] in ("date", "datetime") and any(sp["t"] in ("now", "today", "rel") for sp in all_specs(case))
 
 
-def block_fn_coq(b, k):
-    labs, ws = block_row(b, k)
-    if b["form"] == "choices":
-        return "(FChoice (RCChoices " + C.clist(C.cpair(C.copt(q, C.cz), C.cz(lab)) for lab, q in zip(labs, ws)) + "))"
-    return "(FChoice (RCDict " + C.clist(C.cpair(C.cz(lab), C.cz(q)) for lab, q in zip(labs, ws)) + "))"
+def tok_coq(t):
+    _, text, ty = t
+    if ty == "int":
+        return f"(WInt {C.cz(int(text))})"
+    return f"({'WFlt' if ty == 'flt' else 'WStr'} {C.cstr(text)})"
+
+
+def block_coq(b):
+    """the block as it stands in the recipe: literal / by-key probabilities (as text), label / by-key picks"""
+    items = []
+    for j, col in enumerate(b["cols"]):
+        if col["lit"]:
+            w = f"(WLit {tok_coq(b['tab'][0][1][j])})"
+        else:
+            w = ("(WByKey " + C.clist(C.cpair(C.cz(key), tok_coq(row[j])) for key, row in b["tab"][:-1])
+                 + " " + tok_coq(b["tab"][-1][1][j]) + ")")
+        pk = f"(PKey {C.cz(col['lab'] * 1000)})" if col.get("pickf") else f"(PLab {C.cz(col['lab'])})"
+        items.append(C.cpair(f"(Some {w})", pk))
+    return C.clist(items)
 
 
 def block_coq_case(case, obs):
@@ -578,28 +722,51 @@ def block_coq_case(case, obs):
     if rows is None or not rows or any(r[0] is None for r in rows):
         return None                      # an error / unreadable keys: the oracle reports what the property says about it
     blocks = case["blk"]["blocks"]
-    pairs = []                           # (function as rendered for that row, value) in the order the draws are made
+    pairs = []                           # (block, key of the row, value) in the order the draws are made
     for r in rows:
-        for b, v in zip(blocks, r[1:]):
+        for i, v in enumerate(r[1:]):
             vc = value_coq(v)
             if vc is None:
                 return None
-            pairs.append((block_fn_coq(b, r[0]), vc))
-    if case["draws"]["mode"] == "free":
-        return "CPerRowFree " + C.clist(C.cpair(f, v) for f, v in pairs)
-    if len(obs["rand"]) != len(pairs):
-        return f"CPerRow {DEN} [({pairs[0][0]}, (-1), VNull)]"      # unexpected number of draws: disagreement
-    return f"CPerRow {DEN} " + C.clist(f"({f}, {C.cz(d)}, {v})" for (f, v), d in zip(pairs, obs["rand"]))
+            pairs.append((i, r[0], vc))
+    free = case["draws"]["mode"] == "free"
+    if not free and len(obs["rand"]) != len(pairs):
+        draws = [-1] * len(pairs)        # unexpected number of draws: disagreement
+    else:
+        draws = [None] * len(pairs) if free else obs["rand"]
+    return (f"CBlocks {DEN} " + C.clist(block_coq(b) for b in blocks) + " "
+            + C.clist(f"({C.cnat(i)}, {C.cz(k)}, {C.copt(d, C.cz)}, {v})" for (i, k, v), d in zip(pairs, draws)))
 
 
 def coq_case(case, obs):
     if _uses_clock(case) and not obs.get("clock_stable", True):
         return None                      # midnight passed during the run
-    if case["kind"] == "datetime" and any(case[b]["t"] in ("now", "rel") for b in ("start", "end")) \
+    if case["kind"] == "datetime" and any(sp["t"] in ("now", "rel") for sp in all_specs(case)) \
             and obs.get("now_us") is None:
         return None                      # the value `now` resolved to could not be observed
     if "blk" in case:
         return block_coq_case(case, obs)
+    if "rowargs" in case:
+        if case["kind"] == "datetime" and any(sp["t"] in ("now", "rel") for sp in all_specs(case)) and obs.get("now_us") is None:
+            return None
+        rows = obs.get("rows")
+        if not rows or any(r[0] is None for r in rows):
+            return None
+        vals = [value_coq(r[1]) for r in rows]
+        if any(v is None for v in vals):
+            return None
+        fns = [fn_coq(row_case(case, r[0]), obs) for r in rows]
+        if case["draws"]["mode"] == "free":
+            return "CPerRowFree " + C.clist(C.cpair(f, v) for f, v in zip(fns, vals))
+        drawn = obs["below"] if case["kind"] == "number" else obs["rand"]
+        if case["kind"] == "date":       # a reversed pair of bounds returns nothing without drawing
+            it = iter(drawn)
+            drawn = [0 if r[1][0] == "null" else next(it, -1) for r in rows]
+            if next(it, None) is not None:
+                drawn = [-1] * len(rows)
+        if len(drawn) != len(rows):
+            drawn = [-1] * len(rows)     # unexpected number of draws: disagreement
+        return f"CPerRow {DEN} " + C.clist(f"({f}, {C.cz(d)}, {v})" for f, d, v in zip(fns, drawn, vals))
     if "wrows" in case:
         if "ok" not in obs or len(obs["ok"]) != len(case["wrows"]):
             return None                  # every row is valid: the oracle reports an error / missing rows
@@ -685,6 +852,26 @@ def oracle(case, obs):
     if vals is not None and any(v[0] == "other" for v in vals):
         return f"{k}: unexpected value in the output: {[v for v in vals if v[0] == 'other'][:2]}"
     mode = case["draws"]["mode"]
+    if "rowargs" in case:
+        ra = case["rowargs"]
+        what = (f"arguments changing from row to row (key {ra['driver']}, literal: {ra['lit'] or 'none'}, "
+                f"table {[[key, [spec_text(a) if isinstance(a, dict) else a for a in row]] for key, row in ra['tab']]})")
+        if vals is None:
+            return f"{k}: {RA_FN[k]} with valid arguments in every row raised {obs['err']}; {what}" if rowargs_all_valid(case, obs) else None
+        for n, r in enumerate(obs["rows"]):
+            if r[0] is None:
+                continue
+            rc = row_case(case, r[0])
+            msg = oracle(rc, dict(obs, ok=[r[1]]))
+            if msg:
+                return f"{msg} -- row {n + 1} (key {r[0]}); {what}"
+            if k == "number" and mode == "ends" and len(obs.get("below", [])) == len(obs["rows"]):
+                st = rc["step"] or 1
+                want = rc["min"] if n % 2 == 0 else rc["max"] - (rc["max"] - rc["min"]) % st
+                if r[1][0] == "z" and r[1][1] != want:
+                    return (f"number: row {n + 1} (key {r[0]}): random_number(min={rc['min']}, max={rc['max']}, step={rc['step']}) with the "
+                            f"{'lowest' if n % 2 == 0 else 'highest'} draw of the width requested gave {r[1][1]}, not the end {want} of that row's lattice; {what}")
+        return None
     if k == "number":
         mn, mx = case["min"], case["max"]
         step = 1 if case["step"] is None else case["step"]
@@ -814,6 +1001,8 @@ def match_finding(case, obs, msg, findings):
 # evidence
 def nontrivial(case, obs):
     k = case["kind"]
+    if "rowargs" in case:
+        return "ok" in obs and len(obs.get("rows", [])) >= 2
     if k == "number":
         step = 1 if case["step"] is None else case["step"]
         if step < 1:
@@ -846,6 +1035,16 @@ def stats(cases, obss):
         outcomes[f"{c['kind']}:{o.get('err', 'ok') if ('ok' in o or 'err' in o) else 'n/a'}"] += 1
         rows += len(o.get("ok", []))
         k = c["kind"]
+        if "rowargs" in c:
+            ra = c["rowargs"]
+            nl = len([n for n in RA_NAMES[k] if n in ra["lit"]])
+            feats[f"rowargs:{k}"] += 1
+            feats[f"rowargs:{k}:" + ("all-formula" if nl == 0 else "all-literal" if nl == len(RA_NAMES[k]) else "mixed-literal-and-formula")] += 1
+            feats[f"rowargs:key:{ra['driver']}"] += 1
+            seen = {r[0] for r in o.get("rows", []) if r[0] is not None}
+            if len({json.dumps(row_case(c, kk), sort_keys=True) for kk in seen}) >= 2:
+                feats["rowargs:arguments-differ-between-observed-rows"] += 1
+            continue
         if k == "number":
             step = 1 if c["step"] is None else c["step"]
             w = c["max"] - c["min"]
@@ -887,6 +1086,11 @@ def stats(cases, obss):
         elif k == "choice":
             ws = choice_weights(c)
             feats[f"choice:{c['form']}"] += 1
+            if "raw" in c:
+                feats["choice:probability-text-as-written (float() accepts / rejects)"] += 1
+            for _, q, st in c["items"]:
+                if q is not None and st in ("sp", "plus", "zeros", "pp"):
+                    feats[f"choice:weight-text:{st}"] += 1
             if "wrows" in c:
                 feats[f"choice:per-row-formula-weights:{c['syntax']}:{c['form']}"] += 1
                 if any(a[j] == 0 and b[j] > 0 or a[j] > 0 and b[j] == 0
@@ -906,6 +1110,11 @@ def stats(cases, obss):
         else:
             for b in ("start", "end"):
                 sp = c[b]
+                if sp["t"] != "bad":
+                    feats[f"{k}:bound-text-parsed-by-" + ("the-model" if spec_coq(sp).startswith("(spec_of_text") else "python-datetime")] += 1
+                for flag in ("zulu", "shortfrac", "zpad"):
+                    if sp.get(flag):
+                        feats[f"{k}:text:{flag}"] += 1
                 feats[f"{k}:{b}:{sp['t']}" + (":offset" if sp.get("off") else "") + (":fraction" if sp.get("us") else "")
                       + (":dateonly" if sp.get("dateonly") else "") + (":quoted" if str(sp.get("style", "")).startswith("str") else "")] += 1
             if c["start"].get("t") == "abs" and c["end"].get("t") == "abs":
@@ -1026,7 +1235,8 @@ def gen_choice(rng, tier):
         ws = gen_weights(rng, k)
         if form == "choices" and rng.random() < 0.3:
             ws = [w if w else rng.choice([4, 40, 1]) for w in ws]
-        items = [[lab, (None if form == "list" else w), rng.choice(["pct", "pct", "num", "str", "flt"])] for lab, w in zip(labels, ws)]
+        items = [[lab, (None if form == "list" else w), rng.choice(["pct", "pct", "num", "str", "flt", "sp", "plus", "zeros", "pp"])]
+                 for lab, w in zip(labels, ws)]
         base = {"kind": "choice", "form": form, "items": items}
         if form == "list":
             out.append(dict(base, draws=draws(rng, "all", rows=k)))
@@ -1085,6 +1295,15 @@ def gen_choice(rng, tier):
     for m in mal:
         out.append(dict(m, kind="choice", draws=draws(rng, "ends")))
         out.append(dict(m, kind="choice", draws=draws(rng, "free", rows=5)))
+    # probabilities float() rejects / accepts, as written (the weight of these items is "not given": q = None)
+    for bad in ("", "%", "1.2.3", "--1", "5%5", "+", ".", "1 2", "- 1", "50% ", "%50", "+-5"):
+        good = rng.choice(["40", "40%", " 7.5 ", "+3%%"])
+        for form in ("choices", "dict"):
+            out.append({"kind": "choice", "form": form, "items": [[1, None, "raw"], [2, None, "raw"]],
+                        "raw": [bad, good] if rng.random() < 0.5 else [good, bad], "draws": draws(rng, "ends")})
+    for okt in ("5.", ".5", "+.5", "007", "0.250", " 12 ", "12 %", "1%%%"):
+        out.append({"kind": "choice", "form": rng.choice(["choices", "dict"]), "items": [[1, None, "raw"], [2, None, "raw"]],
+                    "raw": [okt, "0"], "draws": draws(rng, "ends")})
     return out
 
 
@@ -1177,21 +1396,109 @@ def gen_block_case(rng, i):
            for key, ws in zip(keys, rows)]
     block = {"form": form, "cols": cols, "tab": tab, "wrap": rng.choice([None, None, None, "if"])}
     blk["blocks"] = [block]
-    if rng.random() < 0.25:                                        # a second block in the same object: same options, the
-        tab2 = [[key, tab[(n + 1) % len(tab)][1]] for n, (key, _) in enumerate(tab)]     # weights of the next key
-        blk["blocks"].append(dict(block, tab=tab2, wrap=None))
+    if rng.random() < (0.7 if mix == "literal" else 0.25):          # a second block in the same object: same options,
+        rot = lambda l: l[1:] + l[:1]                              # the weights (and their literal / formula kind) of the next one
+        cols2 = [dict(c2, lab=c["lab"], pickf=c["pickf"]) for c, c2 in zip(cols, rot(cols))]
+        blk["blocks"].append(dict(block, cols=cols2, tab=[[key, rot(row)] for key, row in tab], wrap=None))
     return {"kind": "choice", "blk": blk}
 
 
 def gen_blocks(rng, tier):
     out = []
-    for i in range(70 if tier == "quick" else 1500):
+    for i in range(220 if tier == "quick" else 3000):
         base = gen_block_case(rng, i)
         total = 64
         out.append(dict(base, draws={"mode": "raw", "rows": total,
                                      "raw": [rng.choice([0, 0, DEN - 1, DEN - 1, rng.randint(0, DEN - 1)]) for _ in range(total)]}))
         if i % 3 == 0:
             out.append(dict(base, draws={"mode": "free", "rows": total, "seed": rng.randint(0, 10 ** 6)}))
+    return out
+
+
+def gen_rowargs(rng, tier):
+    """random_number / date_between / datetime_between whose arguments are literals or formulas of the row"""
+    out = []
+    n = 60 if tier == "quick" else 1200
+    for i in range(n):
+        kind = ["number", "date", "datetime"][i % 3]
+        driver = rng.choice(["id", "id", "child_index", "field"])
+        count = rng.choice([2, 3, 4, 5])
+        keys = list(range(count)) if driver == "child_index" else list(range(1, count + 1))
+        names = RA_NAMES[kind]
+        # legacy mode (no snowfakery_version 3): formula results are text, converted back to numbers only when they consist of
+        # digits and '.', so a negative number produced by a formula reaches random_number as a string (an error of the
+        # formula language, not of random_number): numbers only in version 3 mode
+        legacy = i % 5 == 4 and kind != "number"
+        mix = rng.choice(["mixed", "mixed", "formula", "literal"])
+        lit = [nm for nm in names if rng.random() < 0.5]
+        if mix == "formula":
+            lit = []
+        elif mix == "literal":
+            lit = list(names)
+        elif len(lit) in (0, len(names)):
+            lit = [rng.choice(names)]
+        rows = []
+        if kind == "number":
+            mn0, mx0, st0 = gen_number_triple(rng)
+            for _ in keys:
+                mn, mx, st = gen_number_triple(rng)
+                span = mx - mn
+                if "min" in lit:
+                    mn = mn0
+                mx = mx0 if "max" in lit else mn + span
+                if mx < mn:
+                    mn = mx - span if "min" not in lit else mn
+                if mx < mn:
+                    mx = mn                              # both literal and reversed cannot happen: mn0 <= mx0
+                st = st0 if "step" in lit else st
+                rows.append([mn, mx, st])
+            if any(r[2] is None for r in rows):
+                rows = [[a, b, None] for a, b, _ in rows]
+        else:
+            def one(first):
+                ymd = gen_day(rng)
+                if kind == "date":
+                    r = rng.random()
+                    s = ab(*ymd, dateonly=True, style="str") if r < 0.6 else (gen_rel(rng, "yMwd") if r < 0.9 else {"t": "today"})
+                    e = ab(*shift_day(ymd, rng.choice([0, 1, 2, 30, 366, rng.randint(0, 3000)])), dateonly=True, style="str") \
+                        if s["t"] == "abs" else rng.choice([{"t": "rel", "parts": [["y", rng.randint(3, 9)]]}, ab(2200, 1, 1, dateonly=True, style="str")])
+                    if s["t"] == "rel":
+                        s = {"t": "rel", "parts": [[u, -abs(v)] for u, v in s["parts"]]}
+                    return [s, e]
+                s = ab(*ymd, H=rng.randint(0, 23), M=rng.randint(0, 59), S=rng.randint(0, 59), style=rng.choice(["str", "str_sp"]),
+                       off=rng.choice([None, None, 0, -300, 330]))
+                span = rng.choice([0, 1, 2, 3600, 86400, rng.randint(2, 10 ** 7)]) * US
+                e = dict(add_us(s, span), style=rng.choice(["str", "str_sp"]))
+                r = rng.random()
+                if r < 0.15:
+                    s, e = {"t": "rel", "parts": [["d", -rng.randint(1, 400)]]}, {"t": "rel", "parts": [["h", rng.randint(0, 400)]]}
+                elif r < 0.25:
+                    s, e = rng.choice([{"t": "today"}, {"t": "now"}]), ab(2200, 1, 1, dateonly=True, style="str")
+                return [deco(rng, s), deco(rng, e)]
+            first = one(True)
+            for _ in keys:
+                row = one(False)
+                if names[0] in lit and names[1] in lit:
+                    row = first
+                elif names[0] in lit:
+                    row = [first[0], ab(2300, 1, 1, dateonly=True, style="str") if kind == "date" or rng.random() < 0.5 else first[1]]
+                    if row[1] is first[1]:
+                        row = [first[0], dict(add_us(first[1], rng.randint(0, 10 ** 6) * US)) if first[1]["t"] == "abs" and not first[1]["dateonly"] else first[1]]
+                elif names[1] in lit:
+                    if kind == "datetime" and first[1]["t"] == "abs" and not first[1]["dateonly"]:
+                        row = [dict(add_us(first[1], -rng.choice([0, 1, 2, 3600, rng.randint(2, 10 ** 7)]) * US), style="str"), first[1]]
+                    else:
+                        row = [ab(1900 + rng.randint(0, 40), rng.randint(1, 12), rng.randint(1, 28), dateonly=(kind == "date"), style="str"), first[1]]
+                rows.append(row)
+        rowargs = {"driver": driver, "count": count, "legacy": legacy, "lit": lit, "all_valid": True,
+                   "syntax": [rng.choice(["jinja", "block", "legacy"] if legacy else ["jinja", "block"]) for _ in names],
+                   "tab": [[key, row] for key, row in zip(keys, rows)]}
+        base = {"kind": kind, "rowargs": rowargs}
+        out.append(dict(base, draws={"mode": "ends", "rows": count}))
+        if i % 2 == 0:
+            out.append(dict(base, draws={"mode": "raw", "rows": count, "raw": [rng.randint(0, 2 ** 40) for _ in range(count)]}))
+        if i % 3 == 0:
+            out.append(dict(base, draws={"mode": "free", "rows": count, "seed": rng.randint(0, 10 ** 6)}))
     return out
 
 
@@ -1235,6 +1542,19 @@ def gen_date_spec(rng, ymd=None):
     return gen_rel(rng, "yMwdhms")
 
 
+def deco(rng, sp):
+    """other spellings of the same bound: Z for +00:00, fraction without trailing zeros, zero-padded counts"""
+    sp = dict(sp)
+    if sp["t"] == "abs" and not sp["dateonly"]:
+        if rng.random() < 0.3:
+            sp["zulu"] = True
+        if rng.random() < 0.5:
+            sp["shortfrac"] = True
+    elif sp["t"] == "rel" and rng.random() < 0.3:
+        sp["zpad"] = rng.choice([2, 3, 5])
+    return sp
+
+
 def gen_date(rng, tier):
     out = []
     n = 150 if tier == "quick" else 3000
@@ -1259,7 +1579,7 @@ def gen_date(rng, tier):
         else:
             pairs.append((gen_date_spec(rng), gen_date_spec(rng)))
     for s, e in pairs:
-        base = {"kind": "date", "start": s, "end": e}
+        base = {"kind": "date", "start": deco(rng, s), "end": deco(rng, e)}
         out.append(dict(base, draws=draws(rng, "ends")))
         if rng.random() < 0.5:
             out.append(dict(base, draws={"mode": "raw", "rows": 4, "raw": [rng.randint(0, DEN - 1) for _ in range(4)]}))
@@ -1342,7 +1662,7 @@ def gen_datetime(rng, tier):
                 s, e = rel(-800 * day, 800 * day), ab(2100 + rng.randint(0, 100), 1, 1, dateonly=rng.random() < 0.5, style="yaml")
         tz = rng.choice([None, None, None, None, None, None, [rng.randint(-11, 12), rng.choice([0, 0, 30, 45])],
                          [rng.randint(-11, 12), rng.choice([0, 0, 30, 45])], "false"])
-        base = {"kind": "datetime", "start": s, "end": e, "tz": tz}
+        base = {"kind": "datetime", "start": deco(rng, s), "end": deco(rng, e), "tz": tz}
         out.append(dict(base, draws=draws(rng, "ends")))
         if rng.random() < 0.5:
             out.append(dict(base, draws={"mode": "raw", "rows": 4, "raw": [rng.randint(0, DEN - 1) for _ in range(4)]}))
@@ -1364,10 +1684,12 @@ def gen_datetime(rng, tier):
 
 
 def generate(rng, tier):
-    return gen_number(rng, tier) + gen_choice(rng, tier) + gen_blocks(rng, tier) + gen_date(rng, tier) + gen_datetime(rng, tier)
+    return gen_number(rng, tier) + gen_choice(rng, tier) + gen_blocks(rng, tier) + gen_rowargs(rng, tier) + gen_date(rng, tier) + gen_datetime(rng, tier)
 
 
 def shrink(case):
+    if "rowargs" in case:
+        return
     if "blk" in case:
         blk = case["blk"]
         if len(blk["blocks"]) > 1:
@@ -1408,5 +1730,5 @@ def directed_search(rng, disagreeing):
                     st = step or 1
                     out.append({"kind": "number", "min": mn, "max": mn + span, "step": step, "style": "block",
                                 "draws": draws(rng, "all", rows=span // st + 1)})
-    out += gen_choice(rng, "quick") + gen_blocks(rng, "quick") + gen_date(rng, "quick") + gen_datetime(rng, "quick")
+    out += gen_choice(rng, "quick") + gen_blocks(rng, "quick") + gen_rowargs(rng, "quick") + gen_date(rng, "quick") + gen_datetime(rng, "quick")
     return out
